@@ -20,6 +20,13 @@ Extractors are registered per property in EXTRACTORS below (properties without a
                                       the number the doc comment of banded::Aligner states for MAX_CELLS ("currently set to …")
   C01 C02        Gen/TbCodes.lean     I_POS, D_POS, S_POS, TB_* (pairwise/mod.rs), the 0b1111 field mask
   C03 C04        Gen/Occ.lean         the `self.k > 64` threshold in `Occ::get` (data_structures/bwt.rs)
+  C08            Gen/SrcKmpLps.lean, SrcShiftAndMasks.lean, SrcHorspoolNew.lean
+  C18            Gen/SrcFenwick.lean, SrcBitEnc.lean
+  C04            Gen/SrcBwt.lean, SrcPrescan.lean
+                                      whole function bodies (kmp::lps, KMP::delta, shift_and::masks, Horspool::new,
+                                      FenwickTree::get/set, bitenc mask/addr/get_by_addr/set_by_addr, bwt::bwt,
+                                      utils::prescan) translated to Lean by tools/rs2lean.py; the equality theorems
+                                      with the mirror models (Thm/GenSrc*.lean) are restated in Thm/C08|C18|C04.lean
 
 RbV/Thm/C01.lean and RbV/Thm/C02.lean import RbV.Thm.GenLimits / RbV.Thm.GenTbCodes and restate their theorems as
 property theorems, and the C01/C02 spec/reference files (`Spec/Align.lean` `minScore`, `Ref/Banded.lean` `maxCells`) are
@@ -725,6 +732,27 @@ def gen_occ(repo):
     emit("Occ", "C03,C04", text, [(rel, s.raw)], s.snippets)
 
 
+# ------------------------------------------------------------------------------------------ translated function bodies
+
+def gen_src(unit_name):
+    """Gen/Src<Name>.lean: the text of whole functions translated to Lean by tools/rs2lean.py (the translation spec —
+    file, pinned header, types of locals, loop fuel — is `UNITS[unit_name]` there).  The equality theorems with the
+    hand-written mirror models live in Thm/GenSrc<Name>.lean and are restated in the property's Thm/Cxx.lean."""
+    def run_src(repo):
+        sys.path.insert(0, os.path.dirname(os.path.abspath(__file__)))
+        import rs2lean
+        u = rs2lean.UNITS[unit_name]
+        s = Src(repo, u["file"])
+        text, snippets = rs2lean.translate_unit(s, u, fail)
+        THEOREMS.setdefault(unit_name, [f["theorem"] for f in u["functions"] if f.get("theorem")])
+        emit(unit_name, u["props"].replace("property ", "").replace("properties ", ""), text, [(u["file"], s.raw)], snippets)
+    run_src.__name__ = "gen_src_" + unit_name
+    return run_src
+
+
+GEN_SRC = {n: gen_src(n) for n in ("SrcKmpLps", "SrcShiftAndMasks", "SrcHorspoolNew", "SrcFenwick", "SrcBitEnc", "SrcBwt", "SrcPrescan")}
+
+
 # ------------------------------------------------------------------------------------------ theorem modules built here
 
 def enclosing_decl(rel, line):
@@ -771,7 +799,10 @@ EXTRACTORS = {
     # C16: Thm/C16.lean imports RbV.Thm.GenLimits and restates; Model/PoaBanded.lean, Drv/C16.lean use Gen.Limits.minScorePoa
     "C16": [gen_limits],
     "C03": [gen_occ],
-    "C04": [gen_occ],
+    "C04": [gen_occ, GEN_SRC["SrcBwt"], GEN_SRC["SrcPrescan"]],
+    # translated function bodies (tools/rs2lean.py); Thm/C08.lean imports RbV.Thm.GenSrc* and restates the theorems
+    "C08": [GEN_SRC["SrcKmpLps"], GEN_SRC["SrcShiftAndMasks"], GEN_SRC["SrcHorspoolNew"]],
+    "C18": [GEN_SRC["SrcFenwick"], GEN_SRC["SrcBitEnc"]],
 }
 
 
